@@ -83,6 +83,6 @@ def altUnits (unitLower : Str) : Option (List (Num × Str)) := do
     if ka.1 != kb.1 then ka.1 < kb.1
     else if ka.2.1 != kb.2.1 then ka.2.1 < kb.2.1
     else (String.ofList ka.2.2) < (String.ofList kb.2.2)
-  pure (convs.mergeSort (fun a b => !lt b a))
+  pure (insertionSort (fun a b => !lt b a) convs)
 
 end RG
